@@ -44,8 +44,14 @@ func (p *Processor) NotifyRecharge(ueId string, rg int32) {
 		return
 	}
 
+	// The subscriber's accounting state is shared with the charging requests
+	// of this subscriber: touch it under the same lock they hold.
+	ue.CULock.Lock()
 	// If it is previosly set to debit mode due to quota exhausted, need to reverse to the reserve mode
 	ue.RatingType[rg] = charging_datatype.REQ_SUBTYPE_RESERVE
+	notifyUri := ue.NotifyUri
+	ue.CULock.Unlock()
+
 	reauthorizationDetails = append(reauthorizationDetails, models.ReauthorizationDetails{
 		RatingGroup: rg,
 	})
@@ -54,7 +60,7 @@ func (p *Processor) NotifyRecharge(ueId string, rg int32) {
 		ReauthorizationDetails: reauthorizationDetails,
 	}
 
-	p.SendChargingNotification(ue.NotifyUri, notifyRequest)
+	p.SendChargingNotification(notifyUri, notifyRequest)
 }
 
 func (p *Processor) SendChargingNotification(notifyUri string, notifyRequest models.ChargingNotifyRequest) {
@@ -172,10 +178,14 @@ func (p *Processor) ChargingDataCreate(
 
 	consumerId := chargingData.NfConsumerIdentification.NFName
 	if !chargingData.OneTimeEvent {
+		// the global counter is written under the context lock (OpenCDR)
+		self.Lock()
+		localRecordSequenceNumber := self.LocalRecordSequenceNumber
+		self.Unlock()
 		// the counter is set off by a delimiter it cannot contain itself, so that
 		// two references with different counters never coincide (consumer "a1" with
 		// counter 2 and consumer "a" with counter 12 both gave "...a12")
-		chargingSessionId = ueId + consumerId + "-" + strconv.Itoa(int(self.LocalRecordSequenceNumber))
+		chargingSessionId = ueId + consumerId + "-" + strconv.Itoa(int(localRecordSequenceNumber))
 	}
 	cdr, err := p.OpenCDR(chargingData, ue, chargingSessionId, false)
 	if err != nil {
